@@ -53,7 +53,8 @@ class Check:
         self.fail_closed = []
         self.replay_dir = os.path.join(VERIF, '_work', 'replay', pid)
         os.makedirs(self.replay_dir, exist_ok=True)
-        self.evidence_path = os.path.join(VERIF, 'evidence', pid + '.json')
+        # VERIF_EVIDENCE_DIR: used only when a check is pointed at a scratch copy of the repository (tools/run_seed_iso.sh)
+        self.evidence_path = os.path.join(os.environ.get('VERIF_EVIDENCE_DIR') or os.path.join(VERIF, 'evidence'), pid + '.json')
         os.makedirs(os.path.dirname(self.evidence_path), exist_ok=True)
 
     def _load_known(self):
